@@ -10,9 +10,23 @@ phase 2  opacity: one slot at a time (scalar value, loop item, dict field, secon
          carries an active payload; the output must be the reference output with the payload verbatim.
          key = reinterpreted:<entry channel>:<payload construct>; the channel is found by re-running every
          single segment (loop bodies: every single atom; includes: the child itself) of the failing template.
+         Payloads = every template construct + text made of the private-use characters U+E000..U+E002 (characters
+         that are not template syntax at all must come out unchanged); slots = bound value, loop item, dict field,
+         second variable, default literal, literal template text, the return value of a custom filter.
+phase 2u the same value slots with the names used inside the payload left UNBOUND: strict mode must not raise for a
+         name that only occurs inside a value and no warning may name it.
+shadow   loops over dict items whose keys shadow the loop specials / an outer variable, outer variables named like
+         the loop specials, loop specials referenced outside a loop.
+api      the other public ways to render (translate(mRNA), translate(name) after create_template /
+         register_template(name=...) re-registered under one name for every template), a fresh instance per case, a
+         second live instance built through the constructor (templates=, no custom filters, not silent) with
+         different templates under the same names, an instance whose included children were re-registered.
+The instances under test are built with custom filters passed to the constructor.
 """
 from __future__ import annotations
 
+import contextlib
+import io
 import itertools
 import json as _json
 import re
@@ -53,14 +67,15 @@ _NAME = re.compile(r"\w+\Z")
 _PARSED: dict = {}
 
 
-def parse(s):
+def parse(s, custom=True):
     """Tokenise once, left to right. Nodes: ('t',text) ('v',name,raw) ('o',name) ('d',name,default)
-    ('f',name,filter,raw) ('if',name,then,else|None) ('each',name,body) ('inc',name)."""
-    got = _PARSED.get(s)
+    ('f',name,filter,raw) ('if',name,then,else|None) ('each',name,body) ('inc',name).
+    custom: whether the instance was given the harness's custom filters (a|name is a filter only if registered)."""
+    got = _PARSED.get((s, custom))
     if got is None:
-        nodes, pos, stop = _parse_seq(s, 0, ())
+        nodes, pos, stop = _parse_seq(s, 0, (), FILTER_SETS[custom])
         assert stop is None and pos == len(s)
-        got = _PARSED[s] = nodes
+        got = _PARSED[(s, custom)] = nodes
     return got
 
 
@@ -72,7 +87,7 @@ def _tag(s, i):
     return s[i + 2 : j], j + 2
 
 
-def _parse_seq(s, pos, stops):
+def _parse_seq(s, pos, stops, filters):
     nodes = []
     buf = []
 
@@ -100,10 +115,10 @@ def _parse_seq(s, pos, stops):
             return nodes, end, inner
         m = re.match(r"#if\s+(\w+)\Z", inner)
         if m:
-            then, p2, st = _parse_seq(s, end, ("#else", "/if"))
+            then, p2, st = _parse_seq(s, end, ("#else", "/if"), filters)
             els = None
             if st == "#else":
-                els, p2, st = _parse_seq(s, p2, ("/if",))
+                els, p2, st = _parse_seq(s, p2, ("/if",), filters)
             if st is None:  # unterminated block: literal text
                 buf.append(s[i:end])
                 pos = end
@@ -114,7 +129,7 @@ def _parse_seq(s, pos, stops):
             continue
         m = re.match(r"#each\s+(\w+)\Z", inner)
         if m:
-            body, p2, st = _parse_seq(s, end, ("/each",))
+            body, p2, st = _parse_seq(s, end, ("/each",), filters)
             if st is None:
                 buf.append(s[i:end])
                 pos = end
@@ -134,7 +149,7 @@ def _parse_seq(s, pos, stops):
         else:
             m = re.match(r"(\w+)\|([^}]*)\Z", inner, re.S)
             if m:
-                if m.group(2) in REF_FILTERS:
+                if m.group(2) in filters:
                     node = ("f", m.group(1), m.group(2), raw)
                 else:
                     node = ("d", m.group(1), m.group(2))
@@ -153,9 +168,12 @@ class Ref:
     """One left-to-right expansion. pieces: str, or ('MISS', raw) for an unbound plain/filtered variable
     (the documentation fixes no text for it: the raw placeholder or the empty string are both accepted)."""
 
-    def __init__(self, registry, ctx):
+    def __init__(self, registry, ctx, custom=True, dict_wins=True):
         self.registry = registry
         self.ctx = ctx
+        self.custom = custom
+        self.filters = FILTER_SETS[custom]
+        self.dict_wins = dict_wins  # a dict item's key named like a loop special: which of the two is seen
         self.pieces = []
         self.needed_unbound = []  # (name, where) plain variables expanded while unbound
 
@@ -180,7 +198,7 @@ class Ref:
                 out.append(str(scope[nd[1]]) if nd[1] in scope else nd[2])
             elif k == "f":
                 if nd[1] in scope:
-                    out.append(REF_FILTERS[nd[2]](scope[nd[1]]))
+                    out.append(self.filters[nd[2]](scope[nd[1]]))
                 else:
                     out.append(("MISS", nd[3]))
             elif k == "if":
@@ -197,15 +215,17 @@ class Ref:
                 n = len(items)
                 for i, item in enumerate(items):
                     sc = dict(scope)
+                    if isinstance(item, dict) and not self.dict_wins:
+                        sc.update(item)
                     sc.update({".": item, "item": item, "index": i, "first": i == 0, "last": i == n - 1})
-                    if isinstance(item, dict):
+                    if isinstance(item, dict) and self.dict_wins:
                         sc.update(item)
                     self.render(nd[2], sc, where + "/loop-body", True, depth)
             elif k == "inc":
                 if nd[1] in self.registry:
                     if depth >= 8:
                         raise Unspecified("include cycle")
-                    self.render(parse(self.registry[nd[1]]), self.ctx, "include", False, depth + 1)
+                    self.render(parse(self.registry[nd[1]], self.custom), self.ctx, "include", False, depth + 1)
                 else:
                     out.append("[Unknown template: %s]" % nd[1])
             else:  # pragma: no cover
@@ -220,7 +240,7 @@ class Ref:
 LOOP_LOCALS = ("item", "index", "first", "last")
 
 
-def static_unbound(nodes, registry, ctx, scope=None, in_loop=False, depth=0, acc=None):
+def static_unbound(nodes, registry, ctx, scope=None, in_loop=False, depth=0, acc=None, custom=True):
     """Every variable referenced anywhere (dead branches, empty loops, includes) that nothing binds.
     Loop-locals count as bound; dict fields count as bound when every item of a non-empty list has them."""
     acc = set() if acc is None else acc
@@ -236,9 +256,9 @@ def static_unbound(nodes, registry, ctx, scope=None, in_loop=False, depth=0, acc
         elif k == "if":
             if nd[1] not in scope:
                 acc.add(nd[1])
-            static_unbound(nd[2], registry, ctx, scope, in_loop, depth, acc)
+            static_unbound(nd[2], registry, ctx, scope, in_loop, depth, acc, custom)
             if nd[3] is not None:
-                static_unbound(nd[3], registry, ctx, scope, in_loop, depth, acc)
+                static_unbound(nd[3], registry, ctx, scope, in_loop, depth, acc, custom)
         elif k == "each":
             items = scope.get(nd[1]) if nd[1] in scope else None
             if nd[1] not in scope:
@@ -252,10 +272,10 @@ def static_unbound(nodes, registry, ctx, scope=None, in_loop=False, depth=0, acc
                     ks = set(it) if isinstance(it, dict) else set()
                     keys = ks if keys is None else keys & ks
                 sc.update({x: None for x in keys})
-            static_unbound(nd[2], registry, ctx, sc, True, depth, acc)
+            static_unbound(nd[2], registry, ctx, sc, True, depth, acc, custom)
         elif k == "inc":
             if nd[1] in registry and depth < 8:
-                static_unbound(parse(registry[nd[1]]), registry, ctx, ctx, False, depth + 1, acc)
+                static_unbound(parse(registry[nd[1]], custom), registry, ctx, ctx, False, depth + 1, acc, custom)
     return acc
 
 
@@ -302,13 +322,31 @@ REG_AST = {
     "other": ((T, "OTHER-TPL"),),
 }
 REGISTRY = {k: emit(v) for k, v in REG_AST.items()}
+# the same names with other texts / other structure: second instance, re-registered children
+ALT_AST = {
+    "leaf": ((T, "l2("), ("opt", "v"), (T, ")")),
+    "mid": ((T, "m2<"), ("inc", "leaf"), (T, ">")),
+    "top": ((T, "t2:"), ("inc", "leaf"), ("inc", "mid"), (T, ".")),
+    "lopt": ((T, "o2["), ("def", "w", "dflt"), (T, "]")),
+    "lblk": (("each", "v", ((V, "index"), (T, ","))),),
+    "other": ((T, "OTHER-2"),),
+}
+ALT_REGISTRY = {k: emit(v) for k, v in ALT_AST.items()}
+REREG_REGISTRY = dict(REGISTRY, leaf=ALT_REGISTRY["leaf"], lopt=ALT_REGISTRY["lopt"])
 FILTERS_ALL = ("upper", "lower", "trim", "title", "length", "json", "repr")
 ATOMS = ((T, "-"), (V, "."), (V, "item"), (V, "index"), (V, "first"), (V, "last"), (V, "k"), (V, "w"))
 ATOM_LABEL = {".": "dot", "k": "dict-field", "w": "outer-variable"}
 
 
 def seg_kinds(level):
-    """Segment kinds over the main variable v (w appears inside blocks). level: 'core' | 'std' | 'full'."""
+    """Segment kinds over the main variable v (w appears inside blocks). level: 'core' | 'std' | 'full' | 'shadow'."""
+    if level == "shadow":  # names of loop specials / dict fields used outside loops too, every single loop atom
+        ks = [(T, "t;"), (V, "index"), (V, "item"), (V, "k"), (V, "w"), ("opt", "first"), ("def", "last", "n/a"),
+              ("if", "first", ((V, "last"),), ((V, "index"),))]
+        ks += [("each", "v", (a,)) for a in ATOMS]
+        ks += [("each", "v", ((V, "index"), (V, "k"), (V, "w"))), ("each", "v", ((V, "item"), (V, "first"), (V, "last"))),
+               ("inc", "lblk")]
+        return ks
     ks = [(T, "t;"), (V, "v"), ("opt", "v"), ("def", "v", "n/a x"), ("def", "v", "")]
     if level != "core":
         ks.append(("def", "v", "Guest"))
@@ -351,18 +389,35 @@ def templates(plan):
 
 MISSING = "__missing__"
 STR = " vV x"
-V_VALUES = (MISSING, "", STR, 0, 7, True, False, None, ["a", "b"], [], [{"k": "x"}])
+W_VALUES = (MISSING, "", STR, 0, 7, True, False, None, ["a", "b"], [], [{"k": "x"}])
+V_VALUES = W_VALUES + ([0, "", None], [{"k": 0}, {"k": ""}])  # falsy-but-valid loop items and dict fields
 STRICT_V = (MISSING, STR, 0, ["a", "b"], [], [{"k": "x"}])
+# private-use characters are not template syntax: wherever they enter they must come out unchanged
+STANDINS = (("private-use-char", "\ue000"), ("private-use-variable", "\ue000\ue000secret\ue001\ue001"),
+            ("private-use-escape", "\ue002\ue001\ue002\ue002"))
 PAYLOADS = (
     ("simple-variable", "{{secret}}"), ("optional-variable", "{{?secret}}"), ("filtered-variable", "{{secret|upper}}"),
     ("defaulted-variable", "{{secret|none}}"), ("include", "{{>other}}"), ("if-block", "{{#if secret}}X{{/if}}"),
     ("each-block", "{{#each xs}}{{item}}{{/each}}"), ("loop-dot", "{{.}}"), ("loop-index", "{{index}}"),
     ("half-open", "{{"),
-)
+) + STANDINS
 DEFAULT_PAYLOADS = (("simple-variable", "{{secret"), ("optional-variable", "{{?secret"), ("include", "{{>other"),
-                    ("loop-dot", "{{."), ("half-open", "{{"))
+                    ("loop-dot", "{{."), ("half-open", "{{")) + STANDINS
+TEXT_PAYLOADS = STANDINS  # literal template text that is not template syntax
 NEUTRAL = "NEUTRAL"
 P2_BASE = {"secret": "S3CR3T", "xs": ["X1", "X2"]}
+U_CONSTRUCTS = ("simple-variable", "each-block", "include", "private-use-variable")  # phase 2u
+# custom filters handed to the constructor: what they return is the filtered variable's text
+FILTER_PAYLOADS = PAYLOADS + (("plain-text", "<cf>"), ("empty-string", ""))
+CUSTOM_FILTERS = {}
+for _i, (_c, _p) in enumerate(FILTER_PAYLOADS):
+    CUSTOM_FILTERS["cf%d" % _i] = (lambda x, _p=_p: "%s<%s>" % (_p, x)) if _p else (lambda x: "")
+CUSTOM_FILTERS["cf_neutral"] = lambda x: "%s<%s>" % (NEUTRAL, x)
+FILTER_SETS = {False: REF_FILTERS, True: dict(REF_FILTERS, **CUSTOM_FILTERS)}
+SHADOW_V = (["a", "b"], [{"k": "x"}], [{"k": "x", "w": "Wd"}],
+            [{"item": "It", "index": "Ix", "first": "", "last": "La"}], ["a", {"index": "Ix", "w": "Wd"}, "c"])
+OUTER_SPECIALS = {"item": "oI", "index": "oX", "first": "oF", "last": "", "k": "oK"}
+API_V = STRICT_V + ("{{>other}}{{secret}}",)
 
 
 def mkctx(v, w, base=None):
@@ -377,37 +432,86 @@ def mkctx(v, w, base=None):
 # ----------------------------------------------------------------------------------------------
 # running the real implementation, judging, attributing
 # ----------------------------------------------------------------------------------------------
+# instances under test. 'custom': built with the harness's custom filters (constructor argument `filters`).
+ENVS = {
+    "main": dict(registry=REGISTRY, custom=True),     # long-lived, register_template(mRNA) one by one, silent
+    "entry": dict(registry=REGISTRY, custom=True),    # long-lived; every template is (re-)registered under one name
+    "alt": dict(registry=ALT_REGISTRY, custom=False),  # long-lived; constructor `templates=`, no filters, not silent
+    "rereg": dict(registry=REREG_REGISTRY, custom=True),  # main's registry, then two children registered again
+}
 _RIB = {}
-RENDERS = [0, 0]  # compared synthesize() calls, translate() executions they caused (includes recurse)
+RENDERS = [0, 0]  # compared renders, translate() executions they caused (includes recurse)
+ENTRY_NAME = "entry_point"
 
 
-def ribosome(strict):
-    r = _RIB.get(strict)
+def build(env, strict):
+    if env == "alt":
+        with contextlib.redirect_stdout(io.StringIO()):
+            return Ribosome(templates={n: mRNA(sequence=q, name=n) for n, q in ALT_REGISTRY.items()}, strict=strict)
+    r = Ribosome(filters=dict(CUSTOM_FILTERS), strict=strict, silent=True)
+    for name, seq in REGISTRY.items():
+        r.register_template(mRNA(sequence=seq, name=name))
+    if env == "rereg":
+        r.create_template(ALT_REGISTRY["leaf"], "leaf")
+        r.register_template(mRNA(sequence=ALT_REGISTRY["lopt"], name="not_this_name"), name="lopt")
+    return r
+
+
+def ribosome(strict, env="main"):
+    r = _RIB.get((env, strict))
     if r is None:
-        r = Ribosome(strict=strict, silent=True)
-        for name, seq in REGISTRY.items():
-            r.register_template(mRNA(sequence=seq, name=name))
-        _RIB[strict] = r
+        r = _RIB[(env, strict)] = build(env, strict)
     return r
 
 
-def observe(tstr, ctx, strict=False):
+def observe(tstr, ctx, strict=False, env="main", how="synthesize", count=False):
     """-> ('ok', sequence, warnings) | ('raise', ExcName, message)"""
+    rib = build(env, strict) if how == "fresh" else ribosome(strict, env)
+    n0 = rib._translations_count
     try:
-        p = ribosome(strict).synthesize(tstr, **ctx)
+        if how in ("synthesize", "fresh"):
+            p = rib.synthesize(tstr, **ctx)
+        elif how == "mrna":
+            p = rib.translate(mRNA(sequence=tstr, name="an_object"), **ctx)
+        elif how == "create":
+            rib.create_template(tstr, ENTRY_NAME)
+            p = rib.translate(ENTRY_NAME, **ctx)
+        elif how == "register-as":
+            rib.register_template(mRNA(sequence=tstr, name="not_this_name"), name=ENTRY_NAME + "_2")
+            p = rib.translate(ENTRY_NAME + "_2", **ctx)
+        else:  # pragma: no cover
+            raise AssertionError(how)
+        got = ("ok", p.sequence, list(p.warnings))
     except Exception as e:  # noqa: BLE001
-        return ("raise", type(e).__name__, str(e))
-    return ("ok", p.sequence, list(p.warnings))
+        got = ("raise", type(e).__name__, str(e))
+    if count:
+        RENDERS[0] += 1
+        RENDERS[1] += rib._translations_count - n0
+    return got
 
 
-def expect(tstr, ctx):
-    """-> Ref, or None when the documentation leaves the case unspecified."""
-    r = Ref(REGISTRY, ctx)
-    try:
-        r.render(parse(tstr), ctx, "top")
-    except Unspecified:
-        return None
-    return r
+def _shadows_special(ctx):
+    return any(isinstance(x, (list, tuple)) and any(isinstance(it, dict) and any(k in LOOP_LOCALS for k in it) for it in x)
+               for x in ctx.values())
+
+
+def ref_alts(tstr, ctx, env="main"):
+    """-> (Ref, accepted outputs), or None when the documentation leaves the case unspecified.
+    A dict item with a key named item/index/first/last: 'its keys are merged into the loop context' and '{{index}} is
+    the position' are both documented; either reading is accepted (consistently within one render)."""
+    e = ENVS[env]
+    refs = []
+    for dict_wins in ((True, False) if _shadows_special(ctx) else (True,)):
+        r = Ref(e["registry"], ctx, e["custom"], dict_wins)
+        try:
+            r.render(parse(tstr, e["custom"]), ctx, "top")
+        except Unspecified:
+            return None
+        refs.append(r)
+    alts = refs[0].alternatives()
+    for r in refs[1:]:
+        alts += tuple(a for a in r.alternatives() if a not in alts)
+    return refs[0], alts
 
 
 _BAD: dict = {}
@@ -426,13 +530,13 @@ def bad(tpl, ctx):
 
 def _bad(tpl, ctx):
     tstr = emit(tpl)
-    ref = expect(tstr, ctx)
-    if ref is None:
+    ra = ref_alts(tstr, ctx)
+    if ra is None:
         return None
     got = observe(tstr, ctx)
     if got[0] == "raise":
         return ("raise", got[1], "raised %s: %s" % (got[1], got[2]))
-    alts = ref.alternatives()
+    alts = ra[1]
     if got[1] in alts:
         return False
     return ("diff", None, "expected %r, observed %r" % (alts[0], got[1]))
@@ -457,6 +561,8 @@ def channel(s, meta):
     k = s[0]
     if k == "def":
         return "default-literal" if meta["slot"] == "default" and s[2] == meta["payload"] else "defaulted"
+    if k == "filt":
+        return "custom-filter-output" if s[2] == meta.get("filter") else "filtered"
     if k == "each":
         a = s[2][0]
         if a[0] == V and a[1] in (".", "item"):
@@ -464,17 +570,20 @@ def channel(s, meta):
         if a[0] == V and a[1] == "k":
             return "dict-field"
         return "simple"
-    return {"var": "simple", "opt": "optional", "filt": "filtered", "if": "simple", "inc": "include-output",
-            "text": "template-text"}[k]
+    return {"var": "simple", "opt": "optional", "if": "simple", "inc": "include-output", "text": "template-text"}[k]
 
 
-def neutral(x, payload):
+def neutral(x, meta):
+    """The same template / context with the payload replaced by inert text (and the payload-returning custom filter
+    by the custom filter that returns inert text)."""
     if isinstance(x, str):
-        return NEUTRAL if x == payload else x
+        if x == meta["payload"]:
+            return NEUTRAL
+        return "cf_neutral" if x == meta.get("filter") else x
     if isinstance(x, (list, tuple)):
-        return type(x)(neutral(y, payload) for y in x)
+        return type(x)(neutral(y, meta) for y in x)
     if isinstance(x, dict):
-        return {k: neutral(y, payload) for k, y in x.items()}
+        return {k: neutral(y, meta) for k, y in x.items()}
     return x
 
 
@@ -488,7 +597,7 @@ def attribute(tpl, ctx, meta):
         if not b:
             return False
         if meta is not None:
-            tb = bad(neutral((seg,), meta["payload"]), neutral(ctx, meta["payload"]))
+            tb = bad(neutral((seg,), meta), neutral(ctx, meta))
             if tb is False:
                 keys.append(("reinterpreted:%s%s:%s" % (label_prefix, channel(seg, meta), meta["construct"]),
                              "segment %r: %s" % (emit_seg(seg), b[2])))
@@ -520,7 +629,7 @@ def attribute(tpl, ctx, meta):
     walk(tpl)
     if not keys:
         kinds = "+".join(sorted({seg_kind(s).split(":")[0] for s in tpl}))
-        if meta is not None and bad(neutral(tpl, meta["payload"]), neutral(ctx, meta["payload"])) is False:
+        if meta is not None and bad(neutral(tpl, meta), neutral(ctx, meta)) is False:
             keys.append(("reinterpreted:cross-segment:%s" % meta["construct"], "no single segment reproduces it (%s)" % kinds))
         else:
             keys.append(("output-mismatch:cross-segment:%s" % kinds, "no single segment reproduces it"))
@@ -532,32 +641,41 @@ def attribute(tpl, ctx, meta):
     return out
 
 
+VALUE_ONLY_NAMES = ("secret", "xs", "other")  # names that occur in payloads, never in a generated template
+
+
+def _strict_raise_class(msg, ctx, meta):
+    m = re.match(r"Missing required variable: (\S+)\Z", msg)
+    name = m.group(1) if m else None
+    if name is None or name in ctx:
+        return "other"
+    if meta is not None and name in VALUE_ONLY_NAMES:
+        return "name-from-value:%s:%s" % (meta["slot"], meta["construct"])
+    return "loop-local" if name in LOOP_LOCALS else "dict-field"
+
+
 def judge(case):
-    """case: {'phase': 1|2|'strict', 'tpl', 'ctx', 'meta'?} -> ('skip'|'ok', [(key, what)], outcome class)"""
+    """case: {'phase': 1|2|'2u'|'strict'|'api', 'tpl', 'ctx', 'meta'?, 'strict'?} -> ('skip'|'ok', [(key, what)], outcome class)"""
+    if case["phase"] == "api":
+        return judge_api(case)
     tpl, ctx = case["tpl"], case["ctx"]
     tstr = emit(tpl)
-    ref = expect(tstr, ctx)
-    if ref is None:
+    ra = ref_alts(tstr, ctx)
+    if ra is None:
         return "skip", [], None
-    alts = ref.alternatives()
+    ref, alts = ra
     viol = []
     desc = "template %r ctx %r: " % (tstr, ctx)
-    RENDERS[0] += 1
-    rib = ribosome(case["phase"] == "strict")
-    n0 = rib._translations_count
-    if case["phase"] == "strict":
-        got = observe(tstr, ctx, strict=True)
-        RENDERS[1] += rib._translations_count - n0
+    meta = case.get("meta")
+    if case["phase"] == "strict" or (case["phase"] == "2u" and case["strict"]):
+        got = observe(tstr, ctx, strict=True, count=True)
         needed = sorted(set(ref.needed_unbound))
         if got[0] == "raise":
             if got[1] != "ValueError":
                 viol.append(("strict-raises:%s" % got[1], desc + "strict mode raised %s: %s" % (got[1], got[2])))
             elif not static_unbound(parse(tstr), REGISTRY, ctx):
-                m = re.match(r"Missing required variable: (\S+)\Z", got[2])
-                name = m.group(1) if m else None
-                cls = "other" if name is None or name in ctx else ("loop-local" if name in LOOP_LOCALS else "dict-field")
-                viol.append(("strict-raises-bound:%s" % cls, desc + "every referenced variable is bound (loop-locals "
-                             "included) but strict mode raised %r" % got[2]))
+                viol.append(("strict-raises-bound:%s" % _strict_raise_class(got[2], ctx, meta), desc + "every variable the "
+                             "template references is bound (loop-locals included) but strict mode raised %r" % got[2]))
             return "ok", viol, ("strict", "raise", bool(needed))
         if needed:
             viol.append(("strict-no-raise:%s" % needed[0][1], desc + "plain variable %r is needed and unbound but strict "
@@ -565,9 +683,7 @@ def judge(case):
         elif got[1] not in alts and got[1:2] != observe(tstr, ctx)[1:2]:
             viol.append(("strict-output-differs", desc + "strict output %r, expected %r" % (got[1], alts[0])))
         return "ok", viol, ("strict", "ok", len(got[2]) > 0)
-    got = observe(tstr, ctx)
-    RENDERS[1] += rib._translations_count - n0
-    meta = case.get("meta")
+    got = observe(tstr, ctx, count=True)
     if got[0] == "raise" or got[1] not in alts:
         for k, w in attribute(tpl, ctx, meta):
             viol.append((k, desc + w + " | whole template: " + ("raised %s" % got[2] if got[0] == "raise" else
@@ -577,8 +693,66 @@ def judge(case):
         if not any(re.search(r"(?<!\w)%s(?!\w)" % re.escape(name), w) for w in got[2]):
             viol.append(("missing-warning:%s" % where, desc + "plain variable %r is needed and unbound, warnings %r"
                          % (name, got[2])))
+    if case["phase"] == "2u":
+        for name in VALUE_ONLY_NAMES:
+            if any(re.search(r"(?<!\w)%s(?!\w)" % name, w) for w in got[2]):
+                viol.append(("warning-for-name-in-value:%s:%s" % (meta["slot"], meta["construct"]), desc + "%r occurs only "
+                             "inside a value, yet the warnings name it: %r" % (name, got[2])))
+                break
     return "ok", viol, (case["phase"], len(ref.needed_unbound) > 0, len(got[2]) > 0, alts.index(got[1]),
                         got[1] != tstr)
+
+
+API_PATHS = (
+    # label (names the public route), instance, how it is rendered
+    ("translate-mRNA-object", "main", "mrna"),
+    ("translate-by-name:create_template-same-name", "entry", "create"),
+    ("translate-by-name:register_template-name-override", "entry", "register-as"),
+    ("fresh-instance", "main", "fresh"),
+    ("second-instance:constructor-templates", "alt", "synthesize"),
+    ("first-instance-after-second", "main", "synthesize"),
+    ("children-re-registered", "rereg", "synthesize"),
+)
+
+
+def judge_api(case):
+    """Every other public route to a rendering, each against the reference for the instance it runs on."""
+    tpl, ctx, strict = case["tpl"], case["ctx"], case["strict"]
+    tstr = emit(tpl)
+    viol = []
+    oc = []
+    judged = 0
+    for label, env, how in API_PATHS:
+        ra = ref_alts(tstr, ctx, env)
+        if ra is None:
+            continue
+        judged += 1
+        ref, alts = ra
+        e = ENVS[env]
+        desc = "%s (strict=%s) template %r ctx %r: " % (label, strict, tstr, ctx)
+        got = observe(tstr, ctx, strict, env, how, count=True)
+        needed = sorted(set(ref.needed_unbound))
+        if got[0] == "raise":
+            if not strict or got[1] != "ValueError":
+                viol.append(("%s:raises:%s" % (label, got[1]), desc + "raised %s: %s" % (got[1], got[2])))
+            elif not static_unbound(parse(tstr, e["custom"]), e["registry"], ctx, custom=e["custom"]):
+                viol.append(("%s:strict-raises-bound" % label, desc + "every referenced variable is bound but strict "
+                             "mode raised %r" % got[2]))
+        elif strict and needed:
+            viol.append(("%s:strict-no-raise" % label, desc + "plain variable %r is needed and unbound but strict mode "
+                         "returned %r" % (needed[0][0], got[1])))
+        elif got[1] not in alts:
+            viol.append(("%s:output-mismatch" % label, desc + "expected %r, observed %r" % (alts[0], got[1])))
+        elif not strict:
+            for name, where in needed:
+                if not any(re.search(r"(?<!\w)%s(?!\w)" % re.escape(name), w) for w in got[2]):
+                    viol.append(("%s:missing-warning" % label, desc + "plain variable %r is needed and unbound, warnings "
+                                 "%r" % (name, got[2])))
+                    break
+        oc.append((how, got[0], got[0] == "ok" and got[1] != tstr))
+    if not judged:
+        return "skip", [], None
+    return "ok", viol, ("api", strict, tuple(oc))
 
 
 # ----------------------------------------------------------------------------------------------
@@ -587,10 +761,12 @@ def judge(case):
 TIERS = {
     # plan = [(kind level, number of segments)], w_values for phase 1
     "quick": dict(plan=[("full", 0), ("full", 1), ("std", 2), ("core", 3)], dplan=[("std", 1), ("core", 2), ("core", 3)],
+                  splan=[("shadow", 1), ("shadow", 2)], aplan=[("full", 1), ("std", 2)],
                   w_values=(MISSING, "w")),
     "thorough": dict(plan=[("full", 0), ("full", 1), ("full", 2), ("std", 3), ("core", 4)],
                      dplan=[("full", 1), ("std", 2), ("std", 3), ("core", 4)],
-                     w_values=V_VALUES),
+                     splan=[("shadow", 1), ("shadow", 2), ("shadow", 3)], aplan=[("full", 1), ("std", 2), ("core", 3)],
+                     w_values=W_VALUES),
 }
 _REFS_W: dict = {}
 
@@ -603,7 +779,7 @@ def references_w(tstr):
 
 
 def cases_for(tpl, cfg):
-    """Every case of one template: phase 1, strict, phase 2 (value slots)."""
+    """Every case of one template: phase 1, strict, phase 2 (value slots), phase 2u (payload names unbound)."""
     for v in V_VALUES:
         for w in cfg["w_values"]:
             yield {"phase": 1, "tpl": tpl, "ctx": mkctx(v, w)}
@@ -619,33 +795,69 @@ def cases_for(tpl, cfg):
                 yield {"phase": 2, "tpl": tpl, "ctx": mkctx(v, p, P2_BASE), "meta": {"slot": "w", "construct": construct, "payload": p}}
         else:
             yield None
+        if construct in U_CONSTRUCTS:
+            for slot, v in (("v", p), ("v-item", [p, "b"]), ("v-field", [{"k": p}])):
+                for strict in (False, True):
+                    yield {"phase": "2u", "tpl": tpl, "ctx": mkctx(v, "w"), "strict": strict,
+                           "meta": {"slot": slot, "construct": construct, "payload": p}}
 
 
-def default_templates(dplan):
-    """Templates in which exactly one position is a defaulted variable whose default literal is a payload."""
+def literal_templates(dplan):
+    """Templates in which exactly one position carries a payload through the TEMPLATE: the default literal of a
+    defaulted variable, literal text (private-use characters only; anything else would be template syntax), or a
+    filtered variable whose custom filter returns the payload. -> (tpl, slot, construct, payload, filter name|None)"""
+    carriers = [("default", c, lit, ("def", "v", lit), None) for c, lit in DEFAULT_PAYLOADS]
+    carriers += [("text", c, lit, (T, lit), None) for c, lit in TEXT_PAYLOADS]
+    carriers += [("filter-output", c, lit, ("filt", "v", "cf%d" % i), "cf%d" % i) for i, (c, lit) in enumerate(FILTER_PAYLOADS)]
     seen, out = set(), []
     for level, n in dplan:
         kinds = seg_kinds(level)
         for pos in range(n):
-            for construct, lit in DEFAULT_PAYLOADS:
+            for slot, construct, lit, seg, fname in carriers:
                 for rest in itertools.product(kinds, repeat=n - 1):
-                    tpl = number_text(rest[:pos] + (("def", "v", lit),) + rest[pos:])
+                    rest = number_text(rest)
+                    tpl = rest[:pos] + (seg,) + rest[pos:]
                     s = emit(tpl)
                     if s not in seen:
                         seen.add(s)
-                        out.append((tpl, construct, lit))
+                        out.append((tpl, slot, construct, lit, fname))
     return out
 
 
-def default_cases(item):
-    tpl, construct, lit = item
+def literal_cases(item):
+    tpl, slot, construct, lit, fname = item
+    meta = {"slot": slot, "construct": construct, "payload": lit}
+    if fname:
+        meta["filter"] = fname
+    inert = construct in ("plain-text", "empty-string")  # nothing to re-interpret: judged like phase 1
     for v in (MISSING, STR, ["a", "b"]):
-        yield {"phase": 2, "tpl": tpl, "ctx": mkctx(v, "w", P2_BASE), "meta": {"slot": "default", "construct": construct, "payload": lit}}
+        if inert:
+            yield {"phase": 1, "tpl": tpl, "ctx": mkctx(v, "w", P2_BASE)}
+        else:
+            yield {"phase": 2, "tpl": tpl, "ctx": mkctx(v, "w", P2_BASE), "meta": meta}
+
+
+def shadow_cases(tpl):
+    for base in ({}, OUTER_SPECIALS):
+        for v in SHADOW_V:
+            for phase in (1, "strict"):
+                yield {"phase": phase, "tpl": tpl, "ctx": mkctx(v, "w", base), "family": "shadow"}
+
+
+def api_cases(tpl):
+    for v in API_V:
+        for w in (MISSING, "w"):
+            for strict in (False, True):
+                yield {"phase": "api", "tpl": tpl, "ctx": mkctx(v, w), "strict": strict}
+
+
+FAMILIES = {"t": cases_for, "d": lambda it, cfg: literal_cases(it), "s": lambda it, cfg: shadow_cases(it),
+            "a": lambda it, cfg: api_cases(it)}
 
 
 def _case_order(case):
     t = emit(case["tpl"])
-    return (len(t), t, str(case["phase"]), len(repr(case["ctx"])), repr(case["ctx"]))
+    return (len(t), t, str(case["phase"]), len(repr(case["ctx"])), repr(case["ctx"]), bool(case.get("strict")))
 
 
 def _work(arg):
@@ -657,20 +869,21 @@ def _work(arg):
     samples = []
     RENDERS[0] = RENDERS[1] = 0
     for it in items:
-        gen = cases_for(it, cfg) if kind == "t" else default_cases(it)
-        for case in gen:
+        for case in FAMILIES[kind](it, cfg):
             if case is None:
                 st["phase2_slot_w_not_referenced_skipped"] += 4
                 continue
             status, vs, oc = judge(case)
-            ph = "phase%s" % case["phase"] if case["phase"] != "strict" else "strict"
+            ph = "phase%s" % case["phase"] if case["phase"] not in ("strict", "api") else case["phase"]
             if status == "skip":
                 st[ph + "_unspecified_skipped"] += 1
                 continue
             st[ph + "_cases"] += 1
+            if case.get("family"):
+                st["of_which_%s_family" % case["family"]] += 1
             if oc is not None:
                 outcomes.add(oc)
-                if oc[-1] is True or case["phase"] == "strict":
+                if oc[-1] is True or oc[0] == "strict" or (oc[0] == "api" and any(x[2] or x[1] == "raise" for x in oc[2])):
                     st["nontrivial_cases"] += 1
             if len(case["tpl"]) <= 1 and case["phase"] == 1:
                 outcomes.add(("out", observe(emit(case["tpl"]), case["ctx"])[1]))
@@ -693,9 +906,12 @@ def run(ctx):
     from collections import Counter
     cfg = TIERS[ctx.tier]
     tpls = common.rotate(templates(cfg["plan"]), ctx.seed)
-    dtpls = common.rotate(default_templates(cfg["dplan"]), ctx.seed)
+    dtpls = common.rotate(literal_templates(cfg["dplan"]), ctx.seed)
+    stpls = common.rotate(templates(cfg["splan"]), ctx.seed)
+    atpls = common.rotate(templates(cfg["aplan"]), ctx.seed)
     n = common.NPROC * 6
-    jobs = [("t", ch, cfg) for ch in common.chunked(tpls, n)] + [("d", ch, cfg) for ch in common.chunked(dtpls, n)]
+    jobs = [(fam, ch, cfg) for fam, seq in (("t", tpls), ("d", dtpls), ("s", stpls), ("a", atpls))
+            for ch in common.chunked(seq, n)]
     st = Counter()
     viols = {}
     samples = []
@@ -722,19 +938,31 @@ def run(ctx):
     ctx.coverage.update(
         states=cases,
         transitions=st["impl_translate_calls"],
-        traces_validated_against_impl=cases,
+        traces_validated_against_impl=st["impl_renders"],
         evaluations=cases,
         distinct_nontrivial=st["nontrivial_cases"],
         templates=len(tpls),
-        default_literal_templates=len(dtpls),
+        literal_payload_templates=len(dtpls),
+        shadow_templates=len(stpls),
+        api_templates=len(atpls),
         plan=[list(p) for p in cfg["plan"]],
-        default_plan=[list(p) for p in cfg["dplan"]],
-        segment_kinds={lv: len(seg_kinds(lv)) for lv in ("core", "std", "full")},
+        literal_plan=[list(p) for p in cfg["dplan"]],
+        shadow_plan=[list(p) for p in cfg["splan"]],
+        api_plan=[list(p) for p in cfg["aplan"]],
+        api_paths=[p[0] for p in API_PATHS],
+        segment_kinds={lv: len(seg_kinds(lv)) for lv in ("core", "std", "full", "shadow")},
         payloads=[p for _, p in PAYLOADS],
+        custom_filters=len(CUSTOM_FILTERS),
         rule="every template = sequence of n segment kinds (plan: [kind level, n]; kinds = text, {{v}}, {{?v}}, defaults, "
-        "filters, if/else, each with loop bodies, includes up to 3 levels/unknown) x every context (v over 11 values x w) "
-        "non-strict, x value classes in strict mode, x every (payload, slot) in phase 2; states = distinct (template, "
-        "context, mode) cases rendered by the real Ribosome and compared with the reference; transitions = "
+        "filters, if/else, each with loop bodies, includes up to 3 levels/unknown) x every context (v over 13 values x w) "
+        "non-strict, x value classes in strict mode, x every (payload, slot) in phase 2 and, with the payload's names "
+        "unbound, in phase 2u (strict and non-strict); literal plan: one position carries a payload as default literal / "
+        "literal text / custom-filter result; shadow plan: names of loop specials and dict fields inside and outside "
+        "loops x dict items shadowing them x outer bindings of the same names, strict and non-strict; api plan: every "
+        "template x context x strict flag through every api path (each on its own instance, judged against the "
+        "reference for that instance's registry and filters). states = distinct (template, context, mode) cases "
+        "rendered by the real Ribosome and compared with the reference (an api case = all its paths); "
+        "traces_validated_against_impl = compared renders; transitions = "
         "translate() executions of the real Ribosome caused by the compared renders (top level + include expansions, read "
         "from its own counter; attribution re-runs of single segments are not counted); non-trivial = output differs from the template "
         "text (something was expanded) or strict mode",
@@ -745,7 +973,12 @@ def run(ctx):
         "each over a non-list value, `length` of a value without len(), and the text emitted for an unbound plain/"
         "filtered variable (raw placeholder or empty both accepted) are not fixed by the documentation: not judged",
         "strict mode is judged over value classes of v (missing, str, int, list, empty list, list of dicts) x w bound/missing",
-        "variable names v, w, k, secret, xs; dict items have the single field k; registry of 6 acyclic templates",
+        "variable names v, w, k, secret, xs (+ item/index/first/last as outer names in the shadow family); registries of "
+        "6 acyclic templates",
+        "a dict item's key named item/index/first/last: both 'the dict key is seen' and 'the loop special is seen' are "
+        "accepted (consistently within one render); a dict key named like an OUTER variable must win inside the loop body",
+        "the text returned by a custom filter is the filtered variable's value (emitted verbatim); custom filters that "
+        "raise or return non-strings, and re-defining a built-in filter name, are not judged",
     ]
 
 
